@@ -299,6 +299,17 @@ def check(ctx):
                                       "not accepted where %s is declared" % tn, "accepted", "FunctionSignature.matches")
                     ctx.count("narrow:%s%s@%d:%s" % (name, h.sig, i, type(bad).__name__), bucket="narrowing")
 
+    # ---- argument lists matching no signature are rejected WITH THAT ERROR whatever the values are: quantities of dimensions that have
+    # no name (m|s, m s, kg^2, J s, m^5), huge numbers, nested arrays, strings with odd characters — the rejection itself never fails
+    for text in ["C(5 m|s, 2)", "(3 m s)!", "cos(1, 2 kg^2)", "seed(4 m^5)", "[1, 2 J s]", "#2020-01-01# * 3 m|s^2", "C(5 m, 2)", "cos(1, 2 N)", "C(5 m|m, 2)",
+                 "sin(1 kg^3|s^7, 1)", "max(\"a\", 2 m|s^3)", "C({1 m|s}, 2)", "(10^400)!!(1)" , "C(2^5000, \"\u00e9\")", "floor(1 A^2 s, 2 K|mol)", "P(3 m|s)",
+                 "mean(1 eur|kg, 2)", "range(1 m|s, 2, 3)", "sqrt(1, 1 cd sr|m^2)", "ln(2 mol|l, 5 kg|m^3)"]:
+        r = R.execute(text)
+        ctx.count("nomatch-text:" + text, bucket="no matching signature, odd values")
+        if r["escaped"] or r["status"] != 1 or r["out"].strip():
+            ctx.violation("dispatch-nomatch-text:" + text, text, "status 1 with the rejection's diagnostic", "status %s %s out=%r" % (r["status"], r["escaped"] or "", r["out"][:60]),
+                          "execute(%r)" % text)
+
     # ---- a keyword under an ALTERNATIVE spelling (colour / color, normalise / normalize …): whether or not the tree accepts the other
     # spelling, a wrongly typed value under the declared one is rejected — also when the other spelling follows in the same call
     def respell(k):
